@@ -933,3 +933,59 @@ func zzC12dHostileSequences() {
 	vf.Assert("locks-free", vf.Unlocked(&c.mu) && vf.RUnlocked(c.upstreams.mu) && vf.RUnlocked(c.downstreams.mu))
 	vf.Reach("end")
 }
+
+// C15.e: keepalive under application traffic nobody consumes: a flood of reliable chunks / acks /
+// ack-completes / metadata for a subscribed stream whose reader is far behind (more than every
+// queue on the way holds) must not stop the pongs from reaching the keepalive: a broker that
+// answers every ping is never given up.
+func zzC15eFloodDoesNotStarvePongs() {
+	tr := ZZNewFakeTransport()
+	tr.In = make(chan message.Message, 4096)
+	c := ZZNewClientConn(tr, nil)
+	c.pingInterval = 10 * time.Second
+	c.pingTimeout = time.Second
+	tr.OnWrite = func(m message.Message) error {
+		if p, ok := m.(*message.Ping); ok {
+			tr.In <- &message.Pong{RequestID: p.RequestID}
+		}
+		return nil
+	}
+	ctx := context.Background()
+	kind := vf.Choose("flood", 4)
+	const alias = 7
+	c.SubscribeDownstreamChunk(ctx, alias, message.QoSReliable)
+	c.SubscribeDownstreamChunkAckComplete(ctx, alias)
+	c.SubscribeDownstreamMeta(ctx, alias, "node")
+	ZZOpenUpstream(c, message.QoSReliable, uuid.UUID{9}, alias)
+	go c.readReliableLoop()
+	done := false
+	go func() { c.keepAliveLoop(); done = true }()
+	vf.Settle()
+	for i := 0; i < 1100; i++ {
+		switch kind {
+		case 0:
+			tr.In <- &message.DownstreamChunk{StreamIDAlias: alias, UpstreamOrAlias: message.UpstreamAlias(1), StreamChunk: &message.StreamChunk{SequenceNumber: uint32(i)}}
+		case 1:
+			tr.In <- &message.UpstreamChunkAck{StreamIDAlias: alias}
+		case 2:
+			tr.In <- &message.DownstreamChunkAckComplete{StreamIDAlias: alias, AckID: uint32(i)}
+		case 3:
+			tr.In <- &message.DownstreamMetadata{StreamIDAlias: alias, SourceNodeID: "node", Metadata: &message.BaseTime{}}
+		}
+	}
+	vf.Settle()
+	for i := 0; i < 3; i++ {
+		vf.Advance(10 * time.Second)
+		vf.Advance(time.Second + 100*time.Millisecond)
+		vf.Assert("live-broker-never-given-up-under-unread-traffic", !done && tr.CloseCount == 0)
+	}
+	pings, pongsSeen := 0, 0
+	for _, m := range tr.Msgs() {
+		if _, ok := m.(*message.Ping); ok {
+			pings++
+		}
+	}
+	_ = pongsSeen
+	vf.Assert("keepalive-kept-pinging", pings >= 3)
+	vf.Reach("end")
+}
